@@ -8,6 +8,9 @@ frozen for H=300 virtual s (> max_eject_attempts x (eject + missing timeout) + 6
                     missing/failed;
   retry_or_report : every physically failed coil eject is followed by another coil command or a failed/missing/broken
                     event of that device;
+  saved_delivered : every ball a ball save announced has physically arrived on the playfield since (or is still
+                    queued / blocked / reported lost or failed); a running game whose devices are all idle with nothing
+                    queued does not count more balls in play than there are balls outside trough and drain device;
   save_requested  : every ball a ball save announced (ball_save_<name>_saving_ball, balls=n) has been requested for the
                     playfield by that ball save (Playfield.add_ball called from BallSave) - eject_delay <= 8 s is far
                     inside the horizon.
@@ -44,7 +47,14 @@ ASSUMPTIONS = [
     "failed/missing/broken event, MPF treats a stray ball as having skipped a mechanical plunger, or another ball "
     "reached the target and MPF confirmed with it",
     "a ball save's announced saves are matched against Playfield.add_ball calls made from BallSave code (caller "
-    "identified on the call stack); ball saves are configured without delayed_eject_events and without ball_locks",
+    "identified on the call stack); ball saves are configured without ball_locks; about 30 % of the cases use "
+    "delayed_eject_events (saved balls held back until an event) - the script fires that event, often after the "
+    "save's enable event was fired again, and the runner fires it once more 0.5 s before every rest, so a held back "
+    "ball has always been released when the world is frozen",
+    "saved_delivered counts balls that physically arrived on the playfield after an MPF/player launch since the first "
+    "announced save, with the same excuses as the delivery clause; its balls-in-play part is evaluated only with a "
+    "running game, all devices idle, nothing queued/blocked, no ball reported missing/failed, no late fall back and no "
+    "coil test, and counts every ball outside trough/drain device as possibly in play",
     "handlers hold balldevice_<dev>_ball_eject_attempt for 0..10 virtual s (like diverters do); never indefinitely",
     "request_served also flags a request parked in the private queue of a device nothing feeds (lock, playfield VUK) "
     "while an idle trough/plunger/drain device on a path to its target has an available ball - only in cases without "
@@ -91,7 +101,52 @@ def gen_case(rng, tier, index):
     n_ops = rng.randint(6, 22 if tier == "quick" else 40)
     ops = C.gen_ops(rng, topo, n_ops, rests=rng.randint(1, 2))
     phys = C.gen_phys(rng, topo, fault)
+    _held_back_save(rng, topo, ops)      # last: the draws above stay what they were
     return {"topo": topo, "phys": phys, "ops": ops, "level": level, "fault": fault}
+
+
+def _held_back_save(rng, topo, ops):
+    """About 30 % of all cases: the ball save holds saved balls back until an event (delayed_eject_events), and the
+    script drains a ball under the armed save, (often) fires the save's enable event again while the saved ball is
+    still held back, and then fires the delayed eject event.  (The runner fires it once more before every rest.)"""
+    import random
+    r = random.Random(rng.getrandbits(32))
+    bs = topo.get("logic", {}).get("ball_save")
+    if not bs or r.random() >= 0.45:
+        return
+    bs["delayed_eject"] = True
+    bs["eject_delay_ms"] = 0
+    bs["balls_to_save"] = r.choice([1, 1, 1, 2, 2, -1])
+    bs["auto_launch"] = r.random() < 0.7
+    slow = any(d["name"] == "bd_plunger" and d["ejector"] in ("mech", "mech_coil") for d in topo["devices"])
+
+    def held_back(start):
+        seq = [["start"]] if start else []
+        seq += [["wait", 45.0 if slow else r.choice([12.0, 12.0, 25.0])], ["ev", "ev_save_enable", 0.2]]
+        for _ in range(r.choice([1, 1, 1, 2])):
+            seq.append(["drain", r.choice([0.2, 0.6, 1.5, 4.0])])
+            seq.append(["wait", r.choice([0.6, 1.5, 4.0])])
+            if r.random() < 0.65:
+                seq.append(["ev", "ev_save_enable", r.choice([0.0, 0.1, 0.6, 4.0])])    # armed again meanwhile
+        if r.random() < 0.3:
+            seq.append(["rest"])        # (the runner fires the delayed eject event before it freezes the world)
+        else:
+            seq += [["ev", "ev_save_eject", r.choice([0.1, 0.6, 4.0, 9.0])], ["wait", r.choice([12.0, 25.0, 45.0])]]
+        return seq
+
+    starts = [i for i, o in enumerate(ops) if o[0] == "start"]
+    # right after the first game start (fresh game, ball 1) and sometimes again later in the script
+    if starts and r.random() < 0.85:
+        i = starts[0] + 1
+        ops[i:i] = held_back(False)
+    if not starts or r.random() < 0.4:
+        i = r.randint(starts[0] + 1 if starts else 0, len(ops))
+        ops[i:i] = held_back(True)
+    for _ in range(r.randint(0, 2)):
+        ops.insert(r.randint(0, len(ops)), ["ev", "ev_save_eject", r.choice(C_DTS)])
+
+
+C_DTS = [0.0, 0.2, 1.5, 4.0, 9.0]
 
 
 def run_case(case):
